@@ -42,7 +42,7 @@ DenseMatrix spe_embedding(RandomAccessIterator begin, RandomAccessIterator end, 
     // Distances normalizer used in global strategy
     ScalarType alpha = 0.0;
     if (global_strategy)
-        alpha = 1.0 / max * std::sqrt(2.0);
+        alpha = max > 0.0 ? 1.0 / max * std::sqrt(2.0) : 0.0;
 
     // Random embedding initialization, Y is the short for embedding_feature_matrix
     DenseMatrix Y = (DenseMatrix::Random(target_dimension, N) + DenseMatrix::Ones(target_dimension, N)) / 2;
